@@ -264,3 +264,46 @@ def selftest_determinism(args):
                     D.log("NONDETERMINISM in %s at %d workers" % (prop, workers))
         D.log("determinism %s: %d families x 4 runs identical" % (prop, n))
     return 2 if bad else 0
+
+
+def selftest_mutants(args):
+    """Sensitivity: applies every patch under mutants/ and seeded/ to a scratch
+    copy of the repository (never /repo) and requires the owning check to fail
+    within the quick budget. Usage: ./check selftest mutants [name-substring]"""
+    import glob
+    import shutil
+    import tempfile
+    want = args[0] if args else ""
+    patches = sorted(glob.glob(os.path.join(D.VERIF, "mutants", "*.patch")))
+    patches += sorted(glob.glob(os.path.join(D.VERIF, "seeded", "*", "patch.diff")))
+    missed = []
+    for patch in patches:
+        name = os.path.basename(os.path.dirname(patch)) if patch.endswith("patch.diff") else os.path.basename(patch)
+        if want not in name:
+            continue
+        prop = name[:3]
+        scratch = tempfile.mkdtemp(prefix="mutant.", dir="/tmp")
+        try:
+            shutil.copytree("/repo/src", os.path.join(scratch, "src"))
+            shutil.copy("/repo/Cargo.toml", scratch)
+            r = subprocess.run(["patch", "-p1", "-s", "-i", patch], cwd=scratch, capture_output=True, text=True)
+            if r.returncode != 0:
+                D.log("%-40s PATCH DOES NOT APPLY" % name)
+                missed.append(name)
+                continue
+            env = dict(os.environ)
+            env["MEMCHR_SRC"] = scratch
+            env.setdefault("VERIF_SCALE", "0.5")
+            r = subprocess.run([os.path.join(D.VERIF, "check"), prop, "quick"], env=env, capture_output=True, text=True)
+            line = [l for l in r.stdout.splitlines() if l.startswith("violation:")]
+            D.log("%-40s %s exit=%d %s" % (name, prop, r.returncode, (line[0][:160] if line else "")))
+            if r.returncode != 1:
+                missed.append(name)
+        finally:
+            shutil.rmtree(scratch, ignore_errors=True)
+    D.gen_shadow()
+    if missed:
+        D.log("NOT DETECTED: " + ", ".join(missed))
+        return 1
+    D.log("all listed changes were detected by their owning check")
+    return 0
